@@ -144,6 +144,7 @@ type pathState struct {
 	fpMuls       int
 	inputLen     int
 	siteForks    map[ssa.Instruction]int // loop policy: decisions per branch site on this path
+	pools        map[*value][]value      // sync.Pool model: free lists
 	tempDirs     int
 	envCalls     int // environment (store/file) calls made on this path
 	crashAt      int // simulated kill at this environment call (0 = none)
